@@ -144,6 +144,11 @@ type verifC15Ev struct {
 	Htlc  int
 	DurMs int64
 	DH    int32
+	// Win: while this htlc is inside the registry's interceptor call (after
+	// the registry looked the invoice up, before its update transaction)
+	// the set timeout of every htlc it saw accepted elapses and is
+	// delivered.
+	Win bool `json:",omitempty"`
 }
 
 type verifC15Case struct {
@@ -733,6 +738,16 @@ func verifC15Gen(r *verifRng) *verifC15Case {
 		}
 	}
 	c.Evs = append(evs, body...)
+	// interceptor windows: a PRNG stream derived from the case content (the
+	// parent stream is not consumed, older cases stay what they were)
+	if len(c.Htlcs) > 0 {
+		wr := &verifRng{s: verifMix(binary.BigEndian.Uint64(c.Htlcs[0].Hash[:8]) ^ verifHashStr("c15win") ^ uint64(len(c.Evs)))}
+		for i := range c.Evs {
+			if c.Evs[i].Op == "htlc" && wr.Chance(1, 4) {
+				c.Evs[i].Win = true
+			}
+		}
+	}
 	return c
 }
 
@@ -888,6 +903,80 @@ type verifC15Run struct {
 	nviol    int
 	flags    map[string]bool
 	dead     bool
+
+	clkMu  sync.Mutex
+	winMu  sync.Mutex
+	winKey map[invpkg.CircuitKey]bool
+}
+
+// verifC15Interceptor is the registry's HtlcInterceptor. It never modifies an
+// amount and never cancels a set; for an htlc whose event carries Win it keeps
+// the registry inside the interceptor call while the set timeout of the htlcs
+// the registry has just read as accepted elapses (TestClock) and is executed by
+// the registry's own event loop (cancelSingleHtlc does not need the registry
+// mutex). The wait is bounded in wall-clock time and bears no verdict: a window
+// in which nothing was canceled is just counted.
+type verifC15Interceptor struct{ r *verifC15Run }
+
+func (ic *verifC15Interceptor) Intercept(req invpkg.HtlcModifyRequest, _ func(invpkg.HtlcModifyResponse)) error {
+	r := ic.r
+	r.winMu.Lock()
+	win := r.winKey[req.ExitHtlcCircuitKey]
+	delete(r.winKey, req.ExitHtlcCircuitKey)
+	r.winMu.Unlock()
+	if !win {
+		return nil
+	}
+	r.vc.Count("interceptor_windows", 1)
+	if req.Invoice.State != invpkg.ContractOpen {
+		return nil
+	}
+	var held []invpkg.CircuitKey
+	for k, h := range req.Invoice.Htlcs {
+		if h.State == invpkg.HtlcStateAccepted && k != req.ExitHtlcCircuitKey {
+			held = append(held, k)
+		}
+	}
+	if len(held) == 0 {
+		return nil
+	}
+	r.vc.Count("interceptor_windows_with_held_htlcs", 1)
+	r.mu.Lock()
+	id, ok := r.keyToID[req.ExitHtlcCircuitKey]
+	var ref *verifC15Ref
+	if ok {
+		ref = r.targetRef(r.in.Htlcs[id])
+	}
+	r.tr("window h%d held=%d", id, len(held))
+	r.mu.Unlock()
+	if ref == nil {
+		return nil
+	}
+	// whole seconds: the SQL store keeps invoice expiries in seconds and the
+	// harness' synchronisation (pendingAsync) reads them back from the store
+	r.doClock(r.in.Cfg.HoldMs + 1000)
+	deadline := time.Now().Add(150 * time.Millisecond)
+	for {
+		s := r.lookup(ref)
+		left := 0
+		for _, k := range held {
+			if hs, ok := s.Htlcs[k]; ok && hs.State == invpkg.HtlcStateAccepted {
+				left++
+			}
+		}
+		if left == 0 {
+			r.vc.Count("interceptor_windows_set_timed_out", 1)
+			r.mu.Lock()
+			r.flags["window-timeout"] = true
+			r.mu.Unlock()
+			return nil
+		}
+		if time.Now().After(deadline) {
+			r.vc.Count("interceptor_windows_no_effect", 1)
+			return nil
+		}
+		time.Sleep(200 * time.Microsecond)
+	}
 }
 
 func (r *verifC15Run) witness() any {
@@ -1607,7 +1696,7 @@ func (r *verifC15Run) start(t *testing.T, store string) {
 		AcceptKeySend:        cfg.AcceptKeySend,
 		AcceptAMP:            cfg.AcceptAMP,
 		KeysendHoldTime:      time.Duration(cfg.KeysendHoldMs) * time.Millisecond,
-		HtlcInterceptor:      &invpkg.MockHtlcModifier{},
+		HtlcInterceptor:      &verifC15Interceptor{r: r},
 	}
 	r.reg = invpkg.NewRegistry(idb, watcher, &rcfg)
 	if err := r.reg.Start(); err != nil {
@@ -1685,6 +1774,7 @@ func verifC15NewRun(t *testing.T, vc *verifCtx, in *verifC15Case, store string, 
 		heightEx: map[string]uint32{},
 		added:    map[int]bool{},
 		flags:    map[string]bool{},
+		winKey:   map[invpkg.CircuitKey]bool{},
 	}
 	for _, h := range in.Htlcs {
 		k := invpkg.CircuitKey{ChanID: lnwire.NewShortChanIDFromInt(h.Chan<<40 | 7<<16 | 1), HtlcID: uint64(h.ID)}
@@ -1819,6 +1909,9 @@ func (r *verifC15Run) doCancel(j int) {
 }
 
 func (r *verifC15Run) doClock(ms int64) {
+	// one clock writer at a time: the TestClock must never go backwards
+	r.clkMu.Lock()
+	defer r.clkMu.Unlock()
 	r.mu.Lock()
 	r.now = r.now.Add(time.Duration(ms) * time.Millisecond)
 	now := r.now
@@ -1850,6 +1943,11 @@ func (r *verifC15Run) exec(e verifC15Ev) {
 	case "add":
 		r.doAdd(e.Inv)
 	case "htlc":
+		if e.Win {
+			r.winMu.Lock()
+			r.winKey[r.rt[e.Htlc].key] = true
+			r.winMu.Unlock()
+		}
 		r.doNotify(e.Htlc, false)
 	case "replay":
 		r.doNotify(e.Htlc, true)
